@@ -244,6 +244,10 @@ where
     deserializer.deserialize_any(ResponsePeersIpv6Visitor)
 }
 
+#[cfg(all(greatest_ape_aquatic_verif, kani))]
+#[path = "/verif/harness/in_http_proto_utils.rs"]
+pub mod verif_harness;
+
 #[cfg(test)]
 mod tests {
     use quickcheck_macros::*;
